@@ -91,6 +91,7 @@ func init() {
 				runSchedAll(c, "C01", []string{"S1-swap-swap", "S2-swap-melt", "S3-melt-melt", "S4-swap-melt-check", "S5-swap-swapvariant", "S6-pendingmelt-poll-swap", "S6f-pendingmelt-failed-poll-swap", "S8p-swap-melt-pending", "S8f-swap-melt-failed", "S9-two-input-overlap", "S10-melt-poll-swap"}, 3)
 				runSchedAll(c, "C01", []string{"S11-failedmelt-poll-remelt-swap", "S12f-meltfails-remelt-swap", "S12n-meltnotfound-remelt-swap"}, 2)
 				runSchedAll(c, "C01", []string{"S7-swap-swap-melt"}, 2)
+				runSchedAll(c, "C01", []string{"S3c-melt-melt-check", "S1c-swap-swap-check-check"}, 1)
 				runSchedAll(c, "C01", []string{"S13-failedmelt-poll-poll-remelt-swap"}, 1)
 				runSchedAll(c, "C01", []string{"S14-internalmelt-swap"}, 2)
 			}
